@@ -66,6 +66,8 @@ def frag_trickle(avail, want, rng):
     m = min(avail, want)
     if want == 24 or m <= 1:
         return m
+    if m > 64:
+        return m - 48          # (the bulk of a large payload at once: the dozen fragments are its tail, so that the payload as a whole stays far below any limit)
     return max(1, m // 4)
 
 
